@@ -150,7 +150,13 @@ func upstreamFaults(run *lib.Run, w *world, root *lib.RNG, direct, viaUp *child)
 			}
 		}
 	}
-	// F: malformed replies
+	// F: malformed replies; plus field lines carrying one octet from the edges of the control
+	// ranges (the text of the resulting error quotes the line)
+	for _, b := range []byte{0x01, 0x08, 0x0b, 0x0c, 0x1b, 0x1f, 0x7f} {
+		malformedReplies[fmt.Sprintf("octet-%02x-in-value", b)] = "HTTP/1.1 200 OK\r\nX-A: a" + string([]byte{b}) + "b\r\nContent-Length: 2\r\n\r\nhi"
+		malformedReplies[fmt.Sprintf("octet-%02x-after-length", b)] = "HTTP/1.1 200 OK\r\nContent-Length: 2" + string([]byte{b}) + "\r\n\r\nhi"
+		malformedReplies[fmt.Sprintf("octet-%02x-in-name", b)] = "HTTP/1.1 200 OK\r\nX-" + string([]byte{b}) + "A: v\r\nContent-Length: 2\r\n\r\nhi"
+	}
 	for name, raw := range malformedReplies {
 		for _, route := range []string{"plain", "mitm"} {
 			c := ucase{route: route, method: "GET", class: "malformed:" + name, child: direct, host: "fault.test"}
@@ -328,6 +334,18 @@ func oneFault(run *lib.Run, w *world, r *lib.RNG, c ucase) {
 	}
 	// complete response
 	isErr := m.Has("X-Forwarder-Error")
+	if isErr {
+		// the proxy's own response: no control octet (other than HTAB) in any field value
+		for _, f := range m.Fields {
+			for i := 0; i < len(f.Value); i++ {
+				if b := f.Value[i]; b < 0x20 && b != '\t' || b == 0x7f {
+					run.Violation("error-response-malformed:control-octet-in-field", fmt.Sprintf("the proxy's own response carries octet 0x%02x inside the value of %s: %q", b, f.Name, lib.Trunc(f.Value, 200)), c.idx, wit)
+					break
+				}
+			}
+		}
+		run.Count("error_response_field_values_scanned", int64(len(m.Fields)))
+	}
 	stray := strayBytes(conn)
 	if stray != "" {
 		run.Violation("stray-bytes-after-response:"+c.class, fmt.Sprintf("bytes follow a complete response: %q", lib.Trunc(stray, 100)), c.idx, wit)
